@@ -72,6 +72,7 @@ def build_initial(rec):
     cls = cls_by_name(FIRST_ORDER.get(rec['cls'], rec['cls']))
     p = np.array(rec['p'], dtype=np.float64)
     t = np.array(rec['t'], dtype=np.int64)
+    p, t = U.represent(p, t, rec.get('rep', 0))          # the same mesh, handed over differently
     m = cls(p, t, sort_t=False) if rec.get('sort_t') is False else cls(p, t)
     if rec['cls'] in FIRST_ORDER:
         m = cls_by_name(rec['cls']).from_mesh(m)
@@ -176,7 +177,7 @@ def tagged(kind, cls, p, t, rng, nsub=2, nbnd=2):
     """Recipe of an initial mesh with random sub-domain and boundary tags (interior facets included)."""
     nt = t.shape[1]
     rec = {'driver': 'refine', 'cls': cls, 'kind': kind, 'p': np.asarray(p).astype(int).tolist(),
-           't': np.asarray(t).astype(int).tolist(), 'sub': {}, 'bnd': {}}
+           't': np.asarray(t).astype(int).tolist(), 'sub': {}, 'bnd': {}, 'rep': int(nt + len(p[0])) % 5}
     for s in range(nsub):
         k = int(rng.integers(1, nt + 1))
         rec['sub'][f's{s}'] = sorted(int(v) for v in rng.choice(nt, size=k, replace=False))
